@@ -688,6 +688,44 @@ class BuiltinMixin:
             return [(st, st.alloc(HIter(rev, z3.IntVal(0))))]
         raise Unsupported(f"reversed() of {type(v).__name__}")
 
+    def b_sorted(self, st, args, kwargs):
+        """sorted(xs, key=f): f is called on every item in order (its exceptions propagate); comparing
+        the keys may raise TypeError (unorderable) or, for huge ints turned to str elsewhere, nothing
+        else; the result is a NEW list holding a permutation of xs (order uninterpreted)"""
+        items = self.concrete_items(st, args[0])
+        if items is None:
+            raise Unsupported("sorted() over a symbolic iterable")
+        key = kwargs.get("key")
+        states = [(st, [])]
+        if key is not None and not isinstance(key, VNone):
+            for x in items:
+                nxt = []
+                for s, acc in states:
+                    if isinstance(acc, Raised):
+                        nxt.append((s, acc))
+                        continue
+                    for s2, kv in self.call_value(s, key, [x], {}):
+                        nxt.append((s2, kv if isinstance(kv, Raised) else acc + [kv]))
+                states = nxt
+        out = []
+        for s, acc in states:
+            if isinstance(acc, Raised):
+                out.append((s, acc))
+                continue
+            if len(items) >= 2:
+                cond = z3.Function("sorted_unorderable", SeqU, I, B)(self.list_seq(s, s.alloc(HList(items=list(items)))), z3.IntVal(s.world + (1000003 if acc else 0)))
+                bad = s.fork().assume(cond)
+                if feasible(bad.pc):
+                    out.append(self.raised(bad, "TypeError", "'<' not supported between instances"))
+                s = s.assume(z3.Not(cond))
+            if len(items) <= 1:
+                out.append((s, s.alloc(HList(items=list(items)))))
+            else:
+                perm = z3.Function("sorted_perm", SeqU, I, SeqU)(self.list_seq(s, s.alloc(HList(items=list(items)))), z3.IntVal(s.world))
+                s.assume(z3.Length(perm) == len(items))
+                out.append((s, s.alloc(HList(seq=perm))))
+        return out
+
     def b_enumerate(self, st, args, kwargs):
         items = self.concrete_items(st, args[0])
         if items is not None:
@@ -886,13 +924,22 @@ class BuiltinMixin:
         gen = args[0]
         items = self.concrete_items(st, gen)
         if items is not None:
-            acc = z3.IntVal(0)
+            if all(self.num_term(x) is not None for x in items):
+                acc = z3.IntVal(0)
+                for x in items:
+                    acc = acc + self.num_term(x)
+                return [(st, VInt(acc))]
+            # mixed operands (int / Decimal / float ...): fold with Python's `+`, left to right from 0
+            states = [(st, const(0))]
             for x in items:
-                t = self.num_term(x)
-                if t is None:
-                    raise Unsupported("sum of non-ints")
-                acc = acc + t
-            return [(st, VInt(acc))]
+                nxt = []
+                for s, acc in states:
+                    if isinstance(acc, Raised):
+                        nxt.append((s, acc))
+                    else:
+                        nxt.extend(self.binop(s, ast.Add(), acc, x))
+                states = nxt
+            return states
         if isinstance(gen, VRef) and isinstance(st.deref(gen), HList) and st.deref(gen).seq is not None:
             seq = self.list_seq(st, gen)
             f = z3.Function("sum_ints", SeqU, I)
